@@ -16,6 +16,7 @@ structure WF (k : KV) : Prop where
   nodup : ∀ t ∈ k.newestFirst, (keys t).Nodup
   acct : ∀ t ∈ k.newestFirst, t.inuse = sumSize t.slots
   fits : ∀ t ∈ k.newestFirst, ∀ s ∈ t.slots, s.r.size < k.tableSize ∧ s.r.key.length < 256
+  tot : ∀ t ∈ k.newestFirst, t.inuse + t.garbage = t.off
 
 theorem disj_of_find_eq {a a' b b' : Table} (ha : ∀ h, a'.find h = a.find h) (hb : ∀ h, b'.find h = b.find h)
     (d : Disj a b) : Disj a' b' := by
@@ -65,6 +66,11 @@ theorem makeTable_wf (k : KV) (w : k.WF) : k.makeTable.WF := by
     rcases mem_demoted k t ht with h | ⟨hd, hh, rfl⟩
     · exact w.fits t (by simp [newestFirst, h])
     · exact w.fits hd (by simp [newestFirst, hh])
+  have hdem_tot : ∀ t ∈ k.demoted, t.inuse + t.garbage = t.off := by
+    intro t ht
+    rcases mem_demoted k t ht with h | ⟨hd, hh, rfl⟩
+    · exact w.tot t (by simp [newestFirst, h])
+    · exact w.tot hd (by simp [newestFirst, hh])
   have hdem_nrw : ∀ t ∈ k.demoted, t.state ≠ .rw := by
     intro t ht
     rcases mem_demoted k t ht with h | ⟨hd, hh, rfl⟩
@@ -80,7 +86,7 @@ theorem makeTable_wf (k : KV) (w : k.WF) : k.makeTable.WF := by
   rw [makeTable_eq]
   cases hp : pickLast isRecycled k.demoted with
   | none =>
-    refine ⟨hdem_re, ?_, ?_, hdem_nrw, ?_, hdem_off, ?_, ?_, ?_⟩
+    refine ⟨hdem_re, ?_, ?_, hdem_nrw, ?_, hdem_off, ?_, ?_, ?_, ?_⟩
     · simp only [Unique, newestFirst, Option.toList, List.cons_append, List.nil_append, List.pairwise_cons]
       exact ⟨fun b _ => disj_of_nil_left rfl, hdem_pw⟩
     · intro t ht; injection ht with ht; subst ht; rfl
@@ -104,12 +110,17 @@ theorem makeTable_wf (k : KV) (w : k.WF) : k.makeTable.WF := by
       rcases ht with rfl | ht
       · intro s hs; simp [Table.new] at hs
       · exact hdem_fits t ht
+    · intro t ht
+      simp only [newestFirst, Option.toList, List.cons_append, List.nil_append, List.mem_cons] at ht
+      rcases ht with rfl | ht
+      · rfl
+      · exact hdem_tot t ht
   | some q =>
     obtain ⟨t, rest⟩ := q
     obtain ⟨hm, hrec, hsub, hsl⟩ := pickLast_mem _ _ _ _ hp
     have he : t.slots = [] := hdem_re t hm hrec
     refine ⟨fun x hx => hdem_re x (hsub x hx), ?_, ?_, fun x hx => hdem_nrw x (hsub x hx), ?_,
-      fun x hx => hdem_off x (hsub x hx), ?_, ?_, ?_⟩
+      fun x hx => hdem_off x (hsub x hx), ?_, ?_, ?_, ?_⟩
     · simp only [Unique, newestFirst, Option.toList, List.cons_append, List.nil_append, List.pairwise_cons]
       exact ⟨fun b _ => disj_of_nil_left he, hdem_pw.sublist hsl⟩
     · intro x hx; injection hx with hx; subst hx; rfl
@@ -133,6 +144,11 @@ theorem makeTable_wf (k : KV) (w : k.WF) : k.makeTable.WF := by
       rcases hx with rfl | hx
       · exact hdem_fits t hm
       · exact hdem_fits x (hsub x hx)
+    · intro x hx
+      simp only [newestFirst, Option.toList, List.cons_append, List.nil_append, List.mem_cons] at hx
+      rcases hx with rfl | hx
+      · exact hdem_tot t hm
+      · exact hdem_tot x (hsub x hx)
 
 /-- after makeTable the head is empty-offset and as large as the configured table size -/
 theorem makeTable_head (k : KV) (w : k.WF) :
@@ -155,19 +171,21 @@ theorem makeTable_tableSize (k : KV) : k.makeTable.tableSize = k.tableSize := by
   rw [makeTable_eq]; cases pickLast isRecycled k.demoted <;> rfl
 
 theorem fork_wf (size : Nat) (idle : Int) : (KV.fork size idle).WF := by
-  refine ⟨by intro t ht; simp [fork] at ht, ?_, ?_, by intro t ht; simp [fork] at ht, ?_, by intro t ht; simp [fork] at ht, ?_, ?_, ?_⟩
+  refine ⟨by intro t ht; simp [fork] at ht, ?_, ?_, by intro t ht; simp [fork] at ht, ?_, by intro t ht; simp [fork] at ht, ?_, ?_, ?_, ?_⟩
   · simp [Unique, newestFirst, fork]
   · intro t ht; simp [fork] at ht; subst ht; rfl
   · intro t ht; simp [newestFirst, fork] at ht; subst ht; rfl
   · intro t ht; simp [newestFirst, fork] at ht; subst ht; simp [keys, Table.new]
   · intro t ht; simp [newestFirst, fork] at ht; subst ht; simp [Table.new, sumSize]
   · intro t ht; simp [newestFirst, fork] at ht; subst ht; intro s hs; simp [Table.new] at hs
+  · intro t ht; simp [newestFirst, fork] at ht; subst ht; rfl
 
 theorem empty_wf (size : Nat) (idle : Int) : (KV.empty size idle).WF := by
   refine ⟨by intro t ht; simp [empty] at ht, by simp [Unique, newestFirst, empty], by intro t ht; simp [empty] at ht,
     by intro t ht; simp [empty] at ht, by intro t ht; simp [newestFirst, empty] at ht,
     by intro t ht; simp [empty] at ht, by intro t ht; simp [newestFirst, empty] at ht,
-    by intro t ht; simp [newestFirst, empty] at ht, by intro t ht; simp [newestFirst, empty] at ht⟩
+    by intro t ht; simp [newestFirst, empty] at ht, by intro t ht; simp [newestFirst, empty] at ht,
+    by intro t ht; simp [newestFirst, empty] at ht⟩
 
 end KV
 end Olric
